@@ -447,7 +447,7 @@ REGISTRY = {
     "C01": Spec("FFSM2.Props.C01", ["ids"], machine_run("C01"), extra=("FFSM2.Props.History",)),
     "C02": Spec("FFSM2.Props.C02", ["ids", "config"], machine_run("C02", ("random", "pingpong"))),
     "C03": Spec("FFSM2.Props.C03", ["ids", "config"], machine_run("C03", ("random", "pingpong"))),
-    "C04": Spec("FFSM2.Props.C04", ["config"], machine_run("C04", ("random", "pingpong"))),
+    "C04": Spec("FFSM2.Props.C04", ["config"], machine_run("C04", ("random", "pingpong")), extra=("FFSM2.Props.History",)),
     "C05": Spec("FFSM2.Props.C05", ["ids"], machine_run("C05")),
     "C06": Spec("FFSM2.Props.C06", ["ids"], machine_run("C06")),
     "C07": Spec("FFSM2.Props.C07", ["ids"], machine_run("C07")),
